@@ -1303,9 +1303,12 @@ def _has_sub_container(j) -> bool:
     return False
 
 
-def _pool_value(rng, base):
+def _pool_value(rng, base, good=0.8):
     kinds = SOURCES.get(base, ["str_misc"])
-    if rng.random() < 0.15:
+    r = rng.random()
+    if r < good * 0.6:
+        kinds = kinds[:2]                  # instances of the class and its closest source kind
+    elif r > good + (1 - good) * 0.5:
         kinds = [k for k in pools() if k not in ("float_inf", "decimal_inf", "str_inf")]
     return rng.choice(pools()[rng.choice(kinds)])
 
@@ -1394,7 +1397,7 @@ def gen_value(rng, d, ctx_unused, good=0.75, datas=None, depth=0):
     if "obj" in d:
         return rng.choice([{"o": d["obj"]}, {"o": 1 - d["obj"]}, E("x"), E(1), None])
     if "t" in d:
-        return _pool_value(rng, d["t"])
+        return _pool_value(rng, d["t"], good)
     if "rule" in d:
         base = (d["rule"].get("base") or {}).get("t")
         vals = _cons_values(rng, base, d["rule"].get("cons"))
@@ -1476,12 +1479,12 @@ def gen_data_value(rng, k, datas, depth=0):
     pairs = []
     for f in decl["fields"]:
         r = rng.random()
-        if r < 0.12:
+        if r < (0.25 if ("default" in f or f.get("required") is False) else 0.04):
             continue
         if depth > 2 and isinstance(f["ty"], dict) and ("opt" in f["ty"] or "gen" in f["ty"]):
             v = None if "opt" in f["ty"] else {"q": [], "k": "list"}
         else:
-            v = gen_value(rng, f["ty"], None, 0.85, datas, depth + 1)
+            v = gen_value(rng, f["ty"], None, 0.96, datas, depth + 1)
         pairs.append([E(f["name"]), v])
     if rng.random() < 0.25:
         pairs.append([E(rng.choice(["z", "extra", "A"])), rng.choice(pools()["int"])])
@@ -1760,6 +1763,18 @@ class C01(Check):
             except Exception as e:
                 lines.append(None)
         model_outs = run_model(lines)
+        st = getattr(self, "_stats", None) or {"compared": 0, "unmodelled": {}, "declaration_rejected": 0, "unsupported": 0}
+        for io, mo in zip(impl_outs, model_outs):
+            if isinstance(io, dict) and "decl" in io:
+                st["declaration_rejected"] += 1
+            elif mo is None:
+                st["unsupported"] += 1
+            elif "unmodelled" in mo or "diverge" in mo:
+                w = str(mo.get("unmodelled", "diverge (Conv.lean before repair 8de0bd0)"))[:60]
+                st["unmodelled"][w] = st["unmodelled"].get(w, 0) + 1
+            else:
+                st["compared"] += 1
+        self._stats = st
         return impl_outs, model_outs
 
     # ---- correspondence ------------------------------------------------------------------------
@@ -1907,7 +1922,11 @@ class C01(Check):
                 f"from harness.c01 import impl; print(json.dumps(impl(json.loads(sys.argv[1])), indent=1))' '{json.dumps(case, sort_keys=True)}'")
 
     def finish_evidence(self, ev, tier):
-        ev["coverage"]["unmodelled_cases"] = getattr(self, "_unmodelled", None)
+        st = getattr(self, "_stats", None) or {}
+        ev["coverage"]["model_vs_implementation_compared"] = st.get("compared")
+        ev["coverage"]["outside_model_fragment"] = st.get("unmodelled")
+        ev["coverage"]["declarations_rejected_by_utype"] = st.get("declaration_rejected")
+        ev["coverage"]["type_objects_not_introspectable"] = st.get("unsupported")
 
 
 def self_verif():
